@@ -45,7 +45,8 @@ struct IniResult
 	std::string problem;        // non-empty: something observable directly went wrong (has() false for a present key, ...)
 };
 
-// how: 0 = explicit write() (the destructor then writes again), 1 = destructor only, 2 = operator[] assignment + destructor
+// how: 0 = explicit write() (the destructor then writes again), 1 = destructor only, 2 = operator[] assignment + destructor,
+//      3 = write(otherName) + destructor (the other file is the one read back)
 inline IniResult runIni(const std::string& path, const std::string& text, const std::vector<Entry>& sets,
                         const std::vector<Entry>& queries, int how)
 {
@@ -60,10 +61,21 @@ inline IniResult runIni(const std::string& path, const std::string& text, const 
 			else ini.set(toStr(nameOf(sets[i])), toStr(sets[i].val));
 		}
 		if (how == 0) ini.write();
+		if (how == 3) ini.write(toStr(path + ".copy"));
 	}
-	posixRead(path, res.w);
+	std::string rpath = path;
+	if (how == 3)
 	{
-		IniFile ini2(toStr(path));
+		// write(otherName) and the destructor's write to the own name must produce the same file
+		std::string own, other;
+		posixRead(path, own);
+		bool wrote = posixRead(path + ".copy", other);
+		if (wrote && own != other) res.problem = "write(name) and the destructor wrote different files";
+		if (wrote) rpath = path + ".copy";
+	}
+	posixRead(rpath, res.w);
+	{
+		IniFile ini2(toStr(rpath));
 		const IniFile& c = ini2;
 		for (size_t i = 0; i < queries.size(); i++)
 		{
@@ -80,8 +92,9 @@ inline IniResult runIni(const std::string& path, const std::string& text, const 
 		}
 	}
 	std::string after;
-	posixRead(path, after);
+	posixRead(rpath, after);
 	if (after != res.w && res.problem.empty()) res.problem = "reading the file with a fresh IniFile (no set) rewrote it";
+	unlink((path + ".copy").c_str());
 	return res;
 }
 
@@ -106,11 +119,24 @@ struct CsvResult
 	std::string problem;
 };
 
-inline std::vector<std::vector<Cell> > readCsv(const std::string& path, std::string& problem)
+inline std::vector<std::vector<Cell> > readCsv(const std::string& path, std::string& problem, bool rowWise = false)
 {
 	std::vector<std::vector<Cell> > got;
 	TabularDataFile in(toStr(path));
-	Array<Array<Var> > data = in.data();
+	Array<Array<Var> > data;
+	if (!rowWise) data = in.data();
+	else
+	{
+		// while (file.nextRow()) { file[i] ... file["name"] ... }
+		Array<String> names = in.columns().clone();
+		while (in.nextRow())
+		{
+			Array<Var> row;
+			for (int j = 0; j < in.row().length(); j++)
+				row << ((j & 1) && j < names.length() ? in[names[j]] : in[j]);
+			data << row;
+		}
+	}
 	for (int i = 0; i < data.length(); i++)
 	{
 		std::vector<Cell> row;
@@ -160,7 +186,7 @@ inline CsvResult runCsv(const std::string& path, int cols, const std::vector<std
 		}
 	}
 	posixRead(path, res.file);
-	res.got = readCsv(path, res.problem);
+	res.got = readCsv(path, res.problem, (variant & 1) != 0);
 	return res;
 }
 
